@@ -742,7 +742,7 @@ func run(c *core.Ctx) {
 	}
 	n := c.Q(16, 312)
 	maxCycles := c.Q(2, 5)
-	par := 12
+	par := 16
 	prefix := ""
 	if c.RaceBuild {
 		n = c.Q(6, 60)
